@@ -469,7 +469,58 @@ def rule_e(ctx, out):
         raise AnalysisError("either-order shortcut of compute_one_with_stack not found")
 
 
+def rule_f(ctx, out):
+    """Levels and bounds of the greedy schedule are extremes over *all* dependences (get_min_pos: longest chain of predecessors;
+    get_max_pos_noSTORE: earliest successor).  A loop that accumulates max/min must run over every element: with an early exit the
+    level of an access comes from whichever predecessor is listed first, two dependent stores can land on one level and be emitted
+    in either order."""
+    from ..core.idioms import extremum_loops
+    n = 0
+    for f, loop, accs, exits in extremum_loops(ctx, ("greedy.",)):
+        n += 1
+        if exits:
+            out.bad(f"extremum-loop-exits-early:{f.name}:{','.join(accs)}", f"{f.qual}: the loop that accumulates the extreme `{', '.join(accs)}` contains "
+                    f"`{short(exits[0], 30)}`: the result is not the extreme over all elements", where(f, exits[0]))
+        else:
+            out.ok({"function": f.qual, "accumulates": accs, "loop": short(loop, 50)})
+    if n < 2:
+        raise AnalysisError(f"only {n} extremum loops found in the greedy module")
+
+
+def rule_g(ctx, out):
+    """Loads that the specification orders after the last store are kept in `final_no_store` until every pending memory operation
+    (`instr`) has been emitted.  The list may therefore be emptied only where `instr` is (about to be) empty: under a test
+    `len(instr) == 0`, or together with `p = len(instr)` (everything up to p is flushed right after).  Emptied earlier, a load that
+    must follow a pending store is emitted before it."""
+    f = ctx.func(f"{GREEDY}.SMSgreedy.compute")
+    cfg = ctx.cfg(f)
+    clears = [n for n in own_nodes(f.node) if isinstance(n, ast.Assign) and len(n.targets) == 1 and is_name(n.targets[0], "final_no_store")
+              and isinstance(n.value, ast.List) and not n.value.elts]
+    if len(clears) < 2:
+        raise AnalysisError(f"SMSgreedy.compute: only {len(clears)} `final_no_store = []` found")
+    for c in clears:
+        node = cfg.stmt_node(c)
+        ok = None
+        for t in cfg.nodes:
+            if t.kind == "test" and norm(t.ast).replace(" ", "") in ("len(instr)==0", "instr==[]", "notinstr") and node is not None and cfg.edge_dominated_by_branch(node, t, "T"):
+                ok = f"under `{norm(t.ast)}`"
+        par = getattr(c, "_parent", None)
+        for fld in ("body", "orelse"):
+            seq = getattr(par, fld, None)
+            if isinstance(seq, list) and c in seq:
+                if any(isinstance(x, ast.Assign) and is_name(x.targets[0], "p") and norm(x.value).replace(" ", "") == "len(instr)" for x in seq):
+                    ok = ok or "together with `p = len(instr)` (all pending operations are flushed next)"
+        if ok:
+            out.ok({"function": "SMSgreedy.compute", "deferred_loads_released": ok})
+        else:
+            out.bad(f"deferred-loads-released-early:compute:line-shape:{norm(getattr(par, 'test', par))[:40] if par is not None else ''}",
+                    "SMSgreedy.compute empties final_no_store at a point where memory operations may still be pending (`instr` not known to be empty): "
+                    "a load ordered after a pending store can then be emitted first", where(f, c))
+
+
 RULES = [
+    ("C04.g", "loads ordered after the last store are released only when no store is pending", 2, rule_g),
+    ("C04.f", "extremes over dependences are taken over all of them", 2, rule_f),
     ("C04.e", "boolean record fields are read by value; swapped operands need the flag", 10, rule_e),
     ("C04.d", "operand order deviates from the specification only for commutative operations", 5, rule_d),
     ("C04.a", "SWAP/DUP emission bounds 1..16", 9, rule_a),
